@@ -64,7 +64,9 @@ IsKeyword(s) == s \in Keywords
 IsGoIdentC(s, k) == /\ Len(s) > 0
                     /\ (k[1] = 1 \/ s[1] = US)
                     /\ \A i \in 2..Len(s) : k[i] = 1 \/ k[i] = 2 \/ s[i] = US
-IsGoIdent(s) == IsGoIdentC(s, AsciiClasses(s))
+IsGoIdent(s) == /\ Len(s) > 0                  \* = IsGoIdentC(s, AsciiClasses(s)), written out for ASCII strings
+                /\ (IsAlpha(s[1]) \/ s[1] = US)
+                /\ \A i \in 2..Len(s) : IsAlpha(s[i]) \/ IsDigit(s[i]) \/ s[i] = US
 \* exported: first character is an upper-case letter (ASCII here: GoCamelCase only ever sees ASCII identifiers)
 IsExportedGoIdent(s) == IsGoIdent(s) /\ IsUpper(s[1])
 
